@@ -5,3 +5,4 @@ import EpsicDriver.OpsLin
 import EpsicDriver.OpsEst
 import EpsicDriver.OpsEig
 import EpsicDriver.OpsSim
+import EpsicDriver.OpsTm
